@@ -161,7 +161,8 @@ def run_k2(ctx, p):
     box = rng.uniform(-p["box"], p["box"], size=(n, g))
     inner = np.array([unit_vec(rng, g) * R * rng.uniform(0, 1) ** (1.0 / g) for _ in range(n)])
     U = np.array([unit_vec(rng, g) for _ in range(20)])
-    pts = np.vstack([box, inner, U * R])
+    axis = np.vstack([np.eye(g) * R, -np.eye(g) * R])          # |p| == R exactly in floating point
+    pts = np.vstack([box, inner, U * R, axis])
     T = T_of(ctx, s, pts)
     finite(ctx, name, T, pts, br)
     tmin = min(t_d)
@@ -379,6 +380,22 @@ def run_dsd(ctx, p):
     jump = float(np.max(np.abs(Ta - Tb)))
     ctx.observe("continuity", name, jump <= 2 * eps / vmin * (1 + 1e-5) + 1e-13 * tscale, branch="r=r_2",
                 measure=jump, tol=2 * eps / vmin)
+    # points whose computed radius is exactly r_1 / r_2 in floating point (axis points, 3-4-5 directions, mesh nodes on
+    # the interface): the value there is the common limit of the two sides
+    ex = np.array([[1.0, 0.0], [0.0, 1.0], [-1.0, 0.0], [0.0, -1.0], [0.6, 0.8], [-0.8, 0.6], [0.28, -0.96]])
+    on = [q for q in ex * r2 if math.hypot(q[0], q[1]) == r2]
+    if on:
+        on = np.array(on)
+        T0 = T_of(ctx, s, on)
+        Tin, Tout = T_of(ctx, s, on * (1 - 1e-7)), T_of(ctx, s, on * (1 + 1e-7))
+        dev = float(np.max(np.maximum(np.abs(T0 - Tin), np.abs(T0 - Tout))))
+        ctx.observe("continuity", name, dev <= 2 * eps / vmin * (1 + 1e-5) + 1e-13 * tscale, branch="points exactly on r=r_2", measure=dev, tol=2 * eps / vmin,
+                    detail=dict(n=len(on), r_2=r2, on=T0[:3].tolist(), inside=Tin[:3].tolist(), outside=Tout[:3].tolist()))
+    on1 = [q for q in ex * r1 if math.hypot(q[0], q[1]) == r1]
+    if on1:
+        T1 = T_of(ctx, s, np.array(on1))
+        ctx.observe("det.value", name, bool(np.all(np.abs(T1 - td) <= 1e-12 * tscale)), branch="points exactly on r=r_1", measure=float(np.max(np.abs(T1 - td))),
+                    detail=dict(r_1=r1, t_d=td, T=T1[:3].tolist()))
     # radial derivative in each material
     for k in range(8):
         r = rr[k] if k < 4 else rr[20 + k - 4]
